@@ -94,6 +94,13 @@ def run(repo, rep):
         raise AnalysisError("compiler_driver: fewer than 3 calls with parameter-named arguments")
     rep.clause("C13-ah", "a CPU pass is moved behind a later pass only if that pass reads none of its outputs: the dependency test looks at every feature-map operand of the later pass (ifm and ifm2)")
     rule_cpu_pass_move(repo, rep)
+    rep.clause("C13-aj", "chain merges (pre -> mid -> post into mid) go ahead only if each tensor in between has exactly one consumer")
+    rule_chain_merge_consumers(repo, rep)
+    rep.clause("C13-ak", "elements of tensor consumer lists (None marks a subgraph output) are dereferenced only under a None test")
+    from .shared import consumer_deref_lint as _cdl
+
+    if _cdl(repo, rep, "C13-ak")[0] < 10:
+        raise AnalysisError("fewer than 10 iterations over consumer lists found")
     rep.clause("C13-ai", "no loop variable is read after its loop in pass packing / subgraph extraction (a CPU operator packed into an NPU pass never went through the graph optimiser: IndexError in the scheduler) [rule shared with C16-j]")
     from .shared import stale_loop_variable_lint as _slv
 
@@ -2153,3 +2160,45 @@ def rule_cpu_pass_move(repo, rep):
         ok = (".ifm2" in t and ".ifm" in t.replace(".ifm2", "")) or ".inputs" in t
         rep.check(ok, "C13-ah", site, f"`{t[:80]}` covers ifm and ifm2 of the next pass",
                   "only one operand of the next pass is tested: a CPU pass whose result is the second operand of a later NPU elementwise pass is moved behind its consumer (AssertionError pred_pass.time < ps.time in build_pass_links)")
+
+
+def rule_chain_merge_consumers(repo, rep):
+    """(aj) A rewrite that merges a chain pre -> mid -> post into `mid` (mid takes pre's input and post's output) makes the two tensors in
+    between producer-less for everybody else. It may only go ahead if each of them has exactly one consumer: an early `return` guarded by
+    a test of `len(<tensor>.consumer_list)` (or `.consumers()`) for `post.inputs[0]` and `mid.inputs[0]`. Otherwise the second consumer
+    reads a tensor nothing produces and verify_graph_health asserts."""
+    go = repo.mod("tflite_graph_optimiser")
+    n = 0
+    for q, fn in go.functions.items():
+        outs = [c for c in ast.walk(fn) if isinstance(c, ast.Call) and isinstance(c.func, ast.Attribute) and c.func.attr == "set_output_tensor" and c.args and str(norm(c.args[0])).endswith(".outputs[0]")
+                and isinstance(c.func.value, ast.Name)]
+        ins = [c for c in ast.walk(fn) if isinstance(c, ast.Call) and isinstance(c.func, ast.Attribute) and c.func.attr == "set_input_tensor" and len(c.args) == 2 and isinstance(c.func.value, ast.Name)
+               and (str(norm(c.args[0])).endswith(".inputs[0]") or str(norm(c.args[0])).endswith(".outputs[0]"))]
+        for o in outs:
+            mid = o.func.value.id
+            post = str(norm(o.args[0]))[: -len(".outputs[0]")]
+            if post == mid or not any(i.func.value.id == mid for i in ins):
+                continue
+            # mid was found as the producer of post's input
+            found_chain = any(isinstance(a, ast.Assign) and str(norm(a.targets[0])) == mid and str(norm(a.value)).endswith(".inputs[0].ops[0]") for a in ast.walk(fn))
+            if not found_chain:
+                continue
+            n += 1
+            tested = set()
+            for i in ast.walk(fn):
+                if isinstance(i, ast.If) and i.body and isinstance(i.body[-1], ast.Return) and i.lineno < o.lineno:
+                    for c in ast.walk(i.test):
+                        if isinstance(c, ast.Call) and call_name(c) == "len" and c.args:
+                            t = str(norm(c.args[0]))
+                            if t.endswith(".consumer_list") or t.endswith(".consumers()"):
+                                tested.add(t.rsplit(".", 1)[0])
+            need = {f"{post}.inputs[0]", f"{mid}.inputs[0]"}
+            # a local that names the tensor (`mid_out = post_op.inputs[0]`) counts as the tensor itself
+            local = {a.targets[0].id: str(norm(a.value)) for a in ast.walk(fn) if isinstance(a, ast.Assign) and len(a.targets) == 1 and isinstance(a.targets[0], ast.Name) and str(norm(a.value)) in need}
+            tested |= {local[t] for t in tested if t in local}
+            missing = {x for x in need if x not in tested}
+            rep.check(not missing, "C13-aj", f"ethosu/vela/tflite_graph_optimiser.py:{q}", f"`{mid}` absorbs `{post}` and its own producer only if the tensors in between have one consumer each",
+                      f"no single-consumer test for {sorted(missing)} before `{str(norm(o))[:60]}`: a second consumer of the inner tensor is left reading a tensor nothing produces "
+                      "(DEQUANTIZE -> EXP -> QUANTIZE with a second QUANTIZE on EXP's output: AssertionError in rewrite_graph.verify_graph_health)")
+    if n < 2:
+        raise AnalysisError(f"tflite_graph_optimiser: {n} chain merges found")
